@@ -693,6 +693,21 @@ func trimSpaceStructural(s *Str) (*Str, bool) {
 	if none || (ps[0].isConst() && ps[len(ps)-1].isConst()) {
 		return &Str{p: ps}, true
 	}
+	// an end may also be made of symbolic pieces that cannot contain whitespace (possibly empty),
+	// provided the constant piece behind them does not end (begin) with whitespace itself
+	j := len(ps) - 1
+	for j >= 0 && !ps[j].isConst() && !ps[j].mayContainSpace() {
+		j--
+	}
+	rightOK := j < 0 || (ps[j].isConst() && ps[j].c != "" && strings.TrimRight(ps[j].c, " \t\n\v\f\r") == ps[j].c)
+	i := 0
+	for i < len(ps) && !ps[i].isConst() && !ps[i].mayContainSpace() {
+		i++
+	}
+	leftOK := i >= len(ps) || (ps[i].isConst() && ps[i].c != "" && strings.TrimLeft(ps[i].c, " \t\n\v\f\r") == ps[i].c)
+	if leftOK && rightOK {
+		return &Str{p: ps}, true
+	}
 	return nil, false
 }
 
